@@ -329,7 +329,14 @@ class Call(Selector):
                 elif x.name.startswith("#loop_") or x.name.startswith(
                     "#endloop_"
                 ):
-                    pass
+                    # These are named after the loop variable
+                    prefix = (
+                        "#loop_" if x.name.startswith("#loop_") else "#endloop_"
+                    )
+                    if x.name[len(prefix) :] not in info:
+                        problems.append(
+                            f"{x.name} does not correspond to a loop variable of `{func}`"
+                        )
 
                 elif x.name.startswith("#"):
                     if x.name not in _valid_hashvars:
